@@ -17,8 +17,8 @@ a non-parent ancestor, insert into a command without contents, string of a
 multi-argument command ...) are part of the enumeration: their exception
 classes and textual fall-backs are modelled too.
 """
-import itertools
 import os
+import re
 
 import corr
 import impl
@@ -30,7 +30,12 @@ corr.DRIVER = os.environ.get('VERIF_DRIVER', corr.DRIVER)
 
 TexNode = D.TexNode
 
-DONOR = r'\new{n1}\begin{q}body \emph{e}\end{q}{grp}$m$\textit{it} \item[z] itm'
+# the donor document is the concatenation of these pieces; the k-th piece is the k-th item
+# of the donor's top-level `contents` (asserted below), so a node of the donor can be
+# produced by parsing its piece alone (a full donor parse per material node costs 5 ms)
+DONOR_PIECES = [r'\new{n1}', r'\begin{q}body \emph{e}\end{q}', r'{grp}', r'$m$',
+                r'\textit{it}', r'\item[z] itm']
+DONOR = ''.join(DONOR_PIECES)
 
 CODES = {'TypeError': 1, 'ValueError': 2, 'AssertionError': 3, 'IndexError': 4}
 
@@ -69,6 +74,37 @@ def _node_vps(node, prefix=()):
 DONOR_VPS = [vp for vp, _ in _node_vps(impl.parse(DONOR))]
 assert len(DONOR_VPS) >= 6, DONOR_VPS
 
+
+def _shape(x):
+    """the tree without source positions"""
+    if isinstance(x, TexNode):
+        x = x.expr
+    if isinstance(x, D.TexText):
+        return ('text', type(x._text).__name__, str(x))
+    if not isinstance(x, D.TexExpr):
+        return (type(x).__name__, str(x))
+    return (type(x).__name__, str(x.name), [_shape(a) for a in x.args],
+            [_shape(c) for c in x._contents])
+
+
+def _donor_node(vp):
+    n = impl.parse(DONOR_PIECES[vp[0]])
+    for p in (0,) + tuple(vp[1:]):
+        n = n.contents[p]
+    return n
+
+
+def _check_pieces():
+    whole = impl.parse(DONOR)
+    for vp in DONOR_VPS:
+        n = whole
+        for p in vp:
+            n = n.contents[p]
+        assert _shape(n) == _shape(_donor_node(vp)), (vp, _shape(n), _shape(_donor_node(vp)))
+
+
+_check_pieces()
+
 MATS_CORE = [
     (('s', 'X'),),
     (('d', DONOR_VPS[0]),),
@@ -94,7 +130,7 @@ def make_material(mats):
         if kind == 's':
             out.append(v)
         else:
-            out.append(i_resolve(impl.parse(DONOR), v).copy())
+            out.append(_donor_node(v).copy())
     return out
 
 
@@ -226,19 +262,23 @@ def arg_variants(n):
     return [tuple(v) for v in vs]
 
 
-def universe(soup, full):
-    """all operations with all valid targets and indices on the current tree;
-    `full` adds more material, out-of-range indices and the ill-targeted
-    variants"""
+def universe(soup, level):
+    """all operations with all valid targets and indices on the current tree.
+    level 2 (full): all material lists, out-of-range indices, the ill-targeted variants;
+    level 1 (core): two material lists; level 0 (mini): one material list per operation"""
+    full = level >= 2
     mats = MATS_FULL if full else MATS_CORE
+    rmats = mats if level >= 1 else mats[1:2]       # replace_with / append
+    imats = mats if level >= 1 else mats[0:1]       # insert
     ops = []
     nodes = _node_vps(soup)
     for vp, n in nodes:
         ops.append(('delete', vp))
         ops.append(('remove', vp))
-        for m in mats:
+        for m in rmats:
             ops.append(('replace_with', vp, m))
-        ops.append(('replace', len(vp) - 1, vp, mats[-1]))
+        if level >= 1:
+            ops.append(('replace', len(vp) - 1, vp, mats[-1]))
         if full and len(vp) >= 2:
             for k in range(len(vp) - 1):
                 ops.append(('replace', k, vp, mats[0]))
@@ -249,9 +289,9 @@ def universe(soup, full):
         if full:
             idxs += [-1, -2, -ln - 2, ln + 2]
         for i in idxs:
-            for m in (mats if 0 <= i <= ln else mats[2:4]):
+            for m in (imats if 0 <= i <= ln else mats[2:4]):
                 ops.append(('insert', vp, i, m))
-        for m in mats:
+        for m in rmats:
             ops.append(('append', vp, m))
         ops.append(('set_string', vp, STRINGS[0]))
         if full:
@@ -259,10 +299,10 @@ def universe(soup, full):
         if isinstance(e, (D.TexCmd, D.TexNamedEnv)):
             for nm in NAMES:
                 ops.append(('rename', vp, nm))
-            for v in arg_variants(len(e.args)):
+            for v in arg_variants(len(e.args))[:4 if level >= 1 else 2]:
                 ops.append(('set_args', vp, v))
             la = len(e.args)
-            for i in ([0, la] if not full else [0, la, -1, la + 3, -la - 2]):
+            for i in ([0, la] if level == 1 else [la] if level == 0 else [0, la, -1, la + 3, -la - 2]):
                 ops.append(('args_insert', vp, i, i % 2, 'ai'))
     # de-duplicate, keep order
     seen, out = set(), []
@@ -273,9 +313,9 @@ def universe(soup, full):
     return out
 
 
-def histories_exhaustive(src, depth, full_first):
-    """every history of exactly `depth` operations (first step: the full
-    universe when asked, later steps: the core universe)"""
+def histories_exhaustive(src, depth, first, later):
+    """every history of exactly `depth` operations; universe level `first` for
+    the first step, `later` for the following ones"""
     out = []
 
     def go(prefix, d):
@@ -283,7 +323,7 @@ def histories_exhaustive(src, depth, full_first):
             out.append(tuple(prefix))
             return
         soup = replay(src, prefix)
-        for op in universe(soup, full_first and not prefix):
+        for op in universe(soup, later if prefix else first):
             go(prefix + [op], d - 1)
     go([], depth)
     return out
@@ -293,7 +333,7 @@ def history_random(src, rng, length):
     soup = impl.parse(src)
     hist = []
     for _ in range(length):
-        u = universe(soup, True)
+        u = universe(soup, 2)
         if not u:
             break
         # half of the time prefer an operation that applies
@@ -329,8 +369,18 @@ def _gen_chunk(arg):
     out = []
     for it in items:
         if kind == 'exh':
-            src, depth, full = it
-            out += [(src, h) for h in histories_exhaustive(src, depth, full)]
+            src, depth, first, later = it
+            out += [(src, h) for h in histories_exhaustive(src, depth, first, later)]
+    return out
+
+
+def _rand_chunk(arg):
+    prop, idx, docs, n, maxlen = arg
+    rng = rng_for(prop, 'K-edit/random/%d' % idx)
+    out = []
+    for _ in range(n):
+        d = rng.choice(docs)
+        out.append((d, history_random(d, rng, rng.randint(3, maxlen))))
     return out
 
 
@@ -347,7 +397,7 @@ def parses_and_roundtrips(src):
 
 
 def documents(prop, tier):
-    n, maxchars = (60, 60) if tier == 'quick' else (400, 90)
+    n, maxchars = (40, 60) if tier == 'quick' else (400, 90)
     docs = list(HAND_DOCS)
     for s, _ in inputs.grammar_docs(prop, n, 2, salt='edit', maxchars=maxchars):
         if s not in docs and inputs.env_in_arg_depth(s) <= 3 and parses_and_roundtrips(s):
@@ -357,30 +407,33 @@ def documents(prop, tier):
 
 def run(prop, tier):
     r = Result('K-edit')
-    rng = rng_for(prop, 'K-edit')
     docs = documents(prop, tier)
     tiny = [d for d in docs if len(d) <= 24]
     quick = tier == 'quick'
 
     # 1. single edits, all targets and indices, full universe: every document
-    gen = [('exh', [(d, 1, True)]) for d in docs]
-    # 2. histories of length 2, exhaustively (core universe after a full first step on the
-    #    hand-written documents)
-    two = HAND_DOCS[:8] if quick else HAND_DOCS + tiny[:10]
-    two = list(dict.fromkeys(two))
-    gen += [('exh', [(d, 2, not quick)]) for d in two]
+    gen = [('exh', [(d, 1, 2, 2)]) for d in docs]
+    # 2. histories of length 2, exhaustively
+    if quick:
+        two = [(d, 2, 1, 1) for d in HAND_DOCS[:2] + HAND_DOCS[7:8]]
+    else:
+        two = [(d, 2, 2, 1) for d in HAND_DOCS[:6]]
+        two += [(d, 2, 1, 1) for d in list(dict.fromkeys(HAND_DOCS[6:] + tiny[:16]))]
+    gen += [('exh', [t]) for t in two]
     # 3. thorough: length 3 exhaustively on tiny documents
     three = [] if quick else [r'\a{x}\a{x}', r'\begin{e}{\b}\b\end{e}', r'\item a\item a', r'{g}$m$']
-    gen += [('exh', [(d, 3, False)]) for d in three]
+    gen += [('exh', [(d, 3, 0, 0)]) for d in three]
     cases = []
     for part in pmap(_gen_chunk, gen):
         cases.extend(part)
     n_exh = len(cases)
-    # 4. random histories
-    nrand, maxlen = (150, 12) if quick else (4000, 40)
-    for _ in range(nrand):
-        d = rng.choice(docs)
-        cases.append((d, history_random(d, rng, rng.randint(3, maxlen))))
+    # 4. random histories (generated in parallel, one random stream per chunk)
+    nrand, maxlen = (160, 12) if quick else (4000, 40)
+    nchunks = NPROC * 2
+    per = nrand // nchunks
+    nrand = per * nchunks
+    for part in pmap(_rand_chunk, [(prop, i, docs, per, maxlen) for i in range(nchunks)]):
+        cases.extend(part)
     cases += SCRIPTED
 
     lines = ['X edit ' + ' '.join(map(str, encode(src, ops))) for src, ops in cases]
